@@ -465,7 +465,7 @@ fn run(args: &Args) -> i32 {
                 match guarded(async move { scan(&d, &cols).await }).await {
                     Ok(mut got) => {
                         let exp = t.expected();
-                        if plant() == "oracle" && sink.oracle_checked == 3 {
+                        if plant() == "oracle" && sink.oracle_checked == 2 {
                             got.clear();
                         }
                         if got == exp {
